@@ -117,6 +117,7 @@ func cmdCheck(args []string) int {
 	for name := range known {
 		cfg.NoRace[name] = true
 		knownNames[name] = true
+		knownText[name] = known[name].Text
 	}
 	if tier == "thorough" {
 		cfg.TimeoutMs = 60000
